@@ -4,6 +4,8 @@ package checks
 import (
 	"bytes"
 	"fmt"
+	"os"
+	"path/filepath"
 	"runtime/debug"
 	"strings"
 	"time"
@@ -96,3 +98,35 @@ func errStr(err error) string {
 func q(s string) string { return fmt.Sprintf("%q", s) }
 
 var _ = core.OK
+
+// fsPut writes a template file below dir and pins its modification time (a loader that trusts size and whole-second
+// timestamps cannot tell two such versions apart).
+func fsPut(dir, name, content string) error {
+	p := filepath.Join(dir, name)
+	os.MkdirAll(filepath.Dir(p), 0o755)
+	if err := os.WriteFile(p, []byte(content), 0o644); err != nil {
+		return err
+	}
+	pinned := time.Date(2020, 2, 3, 4, 5, 6, 0, time.UTC)
+	return os.Chtimes(p, pinned, pinned)
+}
+
+// fsFreshDir returns a scratch directory for loader-freshness histories.
+func fsFreshDir(tag string) string {
+	dir := filepath.Join(core.WorkDir, tag)
+	if core.WorkDir == "" {
+		dir, _ = os.MkdirTemp("", tag)
+	}
+	os.RemoveAll(dir)
+	os.MkdirAll(dir, 0o755)
+	return dir
+}
+
+// seq returns lo, lo+1, ..., hi.
+func seq(lo, hi int) []int {
+	var r []int
+	for i := lo; i <= hi; i++ {
+		r = append(r, i)
+	}
+	return r
+}
